@@ -516,6 +516,26 @@ class Result:
                   % (self.prop, self.known_desc[fid], fid, cnt))
         if self.violations:
             os.makedirs(os.path.join(VERIF, "replays"), exist_ok=True)
+            classes = {}
+            for v in self.violations:
+                k = " | ".join(str(v.get(f)) for f in ("why", "mode", "transport", "origin", "op", "leg", "executor") if v.get(f) is not None)
+                classes[k] = classes.get(k, 0) + 1
+            for k, n in sorted(classes.items(), key=lambda kv: -kv[1])[:30]:
+                print("  violation class x%d: %s" % (n, k))
+            # write replays for a spread of classes, not only the first ones
+            bycls = {}
+            for v in self.violations:
+                k = " | ".join(str(v.get(f)) for f in ("why", "mode", "transport", "origin", "op", "leg", "executor") if v.get(f) is not None)
+                bycls.setdefault(k, []).append(v)
+            spread = []
+            i = 0
+            while len(spread) < 12 and any(bycls.values()):
+                for k in sorted(bycls):
+                    if bycls[k]:
+                        spread.append(bycls[k].pop(0))
+                i += 1
+            self.violations_all = len(self.violations)
+            self.violations = spread
             seen = set()
             for v in self.violations:
                 key = hashlib.sha1(json.dumps(v.get("replay_key", v), sort_keys=True, default=str).encode()).hexdigest()[:12]
